@@ -2,7 +2,7 @@ SPECIFICATION Spec
 CONSTANTS
   Depth = 3
   Wc = "0"
-  MaxBlocks = 9
+  MaxBlocks = 8
 CONSTRAINT Bound
 INVARIANTS TypeOK Partition Measure Arith BlockRules NoFork McRules
 POSTCONDITION Seen
